@@ -180,7 +180,7 @@ fn push_sized(s: &mut Sparse, name: &[u8; 4], len: u64, media: &mut Vec<(u64, u6
 
 /// a lossless stream that declares a w x h image whose only sub-image (the entropy image, `bits` = prefix bits)
 /// uses single-symbol (zero-bit) codes throughout: tiny on the wire, (w >> bits) * (h >> bits) pixels to validate
-fn zero_bit_vp8l(w: u32, h: u32, bits: u32) -> Vec<u8> {
+pub fn zero_bit_vp8l(w: u32, h: u32, bits: u32) -> Vec<u8> {
     let mut bw = BitWriter::new();
     bw.bits(0x2f, 8);
     bw.bits(w - 1, 14);
